@@ -33,6 +33,10 @@ def gen(seed, tier="quick"):
             sym_args=("k",))
     # shared pool of annotations (threads collide on the same annotation objects and names)
     arr = [g.arr_ann(atype=r.choice(("np", "np", "duck", "any"))) for _ in range(r.randrange(3, 7))]
+    if r.random() < 0.7:
+        # symbolic axes are evaluated with eval() over a namespace built from the bindings: make sure most runs exercise it
+        arr.append(g.arr_ann(atype="np", dtype="Shaped", toks=[{"kind": "named", "name": r.choice(("a", "b")), "b": False, "q": False},
+                                                                 {"kind": "sym", "expr": r.choice(("a+1", "2*a", "a+b")), "b": False}]))
     qarr = []
     gq = Gen(r, names=("a", "n"), sizes=(1, 2, 3), var_names=("v",), allow_sym=False, allow_q=True, max_tokens=2)
     gq.anns, gq._ann_index = g.anns, g._ann_index
